@@ -53,66 +53,68 @@ def lookup : List (Nat × Nat × Kind) → Nat → Option Kind
 
 def kindOf (t : Nat) : Option Kind := lookup rows t
 
+/-- `arrayFn(seekBits, lengthBits)` (msgpack.go:58-68) once the length has been read -/
+def arrayFn (dec : Bytes → Res (V × Bytes)) (r : Res (Nat × Bytes)) : Res (V × Bytes) :=
+  match r with
+  | .err e => .err e
+  | .ok (n, bs1) =>
+    match decElems dec n bs1 with
+    | .err e => .err e
+    | .ok (vs, r) => .ok (.arr vs, r)
+
+/-- `mapFn(seekBits, lengthBits)` (msgpack.go:69-83) -/
+def mapFn (dec : Bytes → Res (V × Bytes)) (r : Res (Nat × Bytes)) : Res (V × Bytes) :=
+  match r with
+  | .err e => .err e
+  | .ok (n, bs1) =>
+    match decPairs dec n bs1 with
+    | .err e => .err e
+    | .ok (kvs, r) => .ok (.map kvs, r)
+
+/-- a length followed by that many bytes (`d.FieldUTF8("value", length)`, `d.FieldRawLen("value", length*8)`) -/
+def lenThen (mk : Bytes → V) (r : Res (Nat × Bytes)) : Res (V × Bytes) :=
+  match r with
+  | .err e => .err e
+  | .ok (n, bs1) =>
+    match readN n bs1 with
+    | .err e => .err e
+    | .ok (x, r) => .ok (mk x, r)
+
+/-- a fixed-width scalar (`d.FieldU16("value")`, `d.FieldS32("value")`, `d.FieldF64("value")`, …) -/
+def scalar (n : Nat) (mk : Nat → V) (bs : Bytes) : Res (V × Bytes) :=
+  match readU n bs with
+  | .err e => .err e
+  | .ok (u, r) => .ok (mk u, r)
+
+/-- what a row's decode function does, given the type byte `t` (already consumed) -/
+def runKind (dec : Bytes → Res (V × Bytes)) (t : Nat) (bs : Bytes) : Kind → Res (V × Bytes)
+  | .posfix => .ok (.int t, bs)
+  | .negfix => .ok (.int (toSigned 8 t), bs)
+  | .fixmap => mapFn dec (.ok (t % 16, bs))
+  | .fixarr => arrayFn dec (.ok (t % 16, bs))
+  | .fixstr => lenThen (fun x => .str (sanitizeX x)) (.ok (t % 32, bs))
+  | .nil => .ok (.null, bs)
+  | .neverUsed => .err .fatal                           -- d.Fatalf("0xc1 never used")
+  | .bool b => .ok (.bool b, bs)
+  | .bin n => lenThen .bytes (readU n bs)
+  | .str n => lenThen (fun x => .str (sanitizeX x)) (readU n bs)
+  | .ext _ => .err .unmodelled
+  | .fixext _ => .err .unmodelled
+  | .f32 => scalar 4 (fun p => .float (widen32 p)) bs
+  | .f64 => scalar 8 .float bs
+  | .uint n => scalar n (fun u => .int u) bs
+  | .sint n => scalar n (fun u => .int (toSigned (8 * n) u)) bs
+  | .arr n => arrayFn dec (readU n bs)
+  | .map n => mapFn dec (readU n bs)
+
 /-- the decoder; `fuel` bounds the nesting depth (`decode` supplies input length + 1) -/
 def decT : Nat → Bytes → Res (V × Bytes)
   | 0, _ => .err .fuel
   | _+1, [] => .err .eof                                   -- d.FieldU8("type") at the end of the buffer
   | fuel+1, t :: bs =>
-    let arrayFn (r : Res (Nat × Bytes)) : Res (V × Bytes) :=
-      match r with
-      | .err e => .err e
-      | .ok (n, bs1) =>
-        match decElems (decT fuel) n bs1 with
-        | .err e => .err e
-        | .ok (vs, r) => .ok (.arr vs, r)
-    let mapFn (r : Res (Nat × Bytes)) : Res (V × Bytes) :=
-      match r with
-      | .err e => .err e
-      | .ok (n, bs1) =>
-        match decPairs (decT fuel) n bs1 with
-        | .err e => .err e
-        | .ok (kvs, r) => .ok (.map kvs, r)
-    let lenThen (mk : Bytes → V) (r : Res (Nat × Bytes)) : Res (V × Bytes) :=
-      match r with
-      | .err e => .err e
-      | .ok (n, bs1) =>
-        match readN n bs1 with
-        | .err e => .err e
-        | .ok (x, r) => .ok (mk x, r)
     match kindOf t.toNat with
     | none => .err .fatal                                   -- panic("unreachable")
-    | some k =>
-      match k with
-      | .posfix => .ok (.int t.toNat, bs)
-      | .negfix => .ok (.int (toSigned 8 t.toNat), bs)
-      | .fixmap => mapFn (.ok (t.toNat % 16, bs))
-      | .fixarr => arrayFn (.ok (t.toNat % 16, bs))
-      | .fixstr => lenThen (fun x => .str (sanitizeX x)) (.ok (t.toNat % 32, bs))
-      | .nil => .ok (.null, bs)
-      | .neverUsed => .err .fatal                           -- d.Fatalf("0xc1 never used")
-      | .bool b => .ok (.bool b, bs)
-      | .bin n => lenThen .bytes (readU n bs)
-      | .str n => lenThen (fun x => .str (sanitizeX x)) (readU n bs)
-      | .ext _ => .err .unmodelled
-      | .fixext _ => .err .unmodelled
-      | .f32 =>
-        match readU 4 bs with
-        | .err e => .err e
-        | .ok (p, r) => .ok (.float (widen32 p), r)
-      | .f64 =>
-        match readU 8 bs with
-        | .err e => .err e
-        | .ok (p, r) => .ok (.float p, r)
-      | .uint n =>
-        match readU n bs with
-        | .err e => .err e
-        | .ok (u, r) => .ok (.int u, r)
-      | .sint n =>
-        match readU n bs with
-        | .err e => .err e
-        | .ok (u, r) => .ok (.int (toSigned (8 * n) u), r)
-      | .arr n => arrayFn (readU n bs)
-      | .map n => mapFn (readU n bs)
+    | some k => runKind (decT fuel) t.toNat bs k
 
 /-- `fq -d msgpack torepr` on `bs`: the value and the bytes after it (which fq shows as a gap field) -/
 def decode (bs : Bytes) : Res (V × Bytes) := withRepr (decT (bs.length + 1) bs)
